@@ -96,11 +96,21 @@ has_term_var(terms) if {
 	term.type == "var"
 }
 
+# x := y, and x = y — which is eq(x, y) in the AST, whether or not the package
+# defines a function named eq of its own (of any arity) — are handled by the
+# "assign" definition of _find_vars alone (two definitions at once would be a conflict)
+_assignment_or_unification(value) if value[0].value[0].value == "assign"
+
+_assignment_or_unification(value) if {
+	value[0].value[0].value == "eq"
+	count(value) == 3
+}
+
 _find_vars(value, last) := {"term": find_term_vars(function_ret_args(fn_name, value))} if {
 	last == "terms"
 	value[0].type == "ref"
 	value[0].value[0].type == "var"
-	value[0].value[0].value != "assign"
+	not _assignment_or_unification(value)
 
 	fn_name := ref_to_string(value[0].value)
 
